@@ -51,9 +51,17 @@ var Table = []func() macaroon.Caveat{
 	13: func() macaroon.Caveat { return &flyio.Mutations{Mutations: []string{"m"}} },
 	14: func() macaroon.Caveat { return &flyio.IsUser{ID: 5} },
 	15: func() macaroon.Caveat { return ptr(auth.MaxValidity(3600)) },
+	// wrappers in which a clean nested wrapper comes BEFORE the attestation
+	16: func() macaroon.Caveat {
+		return &resset.IfPresent{Ifs: macaroon.NewCaveatSet(&resset.IfPresent{Ifs: macaroon.NewCaveatSet(ptr(resset.ActionRead)), Else: 0}, ptr(auth.FlyioUserID(7))), Else: resset.ActionAll}
+	},
+	17: func() macaroon.Caveat {
+		return &resset.IfPresent{Ifs: macaroon.NewCaveatSet(ptr(resset.ActionRead), &resset.IfPresent{Ifs: macaroon.NewCaveatSet(&flyio.Organization{ID: 1, Mask: resset.ActionAll}), Else: 0},
+			&resset.IfPresent{Ifs: macaroon.NewCaveatSet((*auth.GoogleUserID)(big.NewInt(5))), Else: 0}), Else: resset.ActionAll}
+	},
 }
 
-var Flags = map[uint64][2]bool{3: {true, false}, 4: {true, false}, 9: {true, false}, 5: {false, true}, 10: {false, true}}
+var Flags = map[uint64][2]bool{3: {true, false}, 4: {true, false}, 9: {true, false}, 5: {false, true}, 10: {false, true}, 16: {false, true}, 17: {false, true}}
 
 func DOf(id uint64) D { f := Flags[id]; return D{id, f[0], f[1]} }
 
